@@ -60,3 +60,27 @@ package ompt
 //@   ensures [longsize] len(b) > 55 ==> dec_u64(arr(r), off(r) + 1, int(r[0] - 0xb7)) == uint64(len(b)) && r[1] != 0
 //@   ensures [longdata] len(b) > 55 ==> (forall i int :: {b[i]} 0 <= i && i < len(b) ==> r[1 + int(r[0] - 0xb7) + i] == b[i])
 //@   loop 0: unroll 8
+
+// An iterator that stopped on an error is not "finished": Has stays true so that the usual
+// `for it.Has() { it.Get() ... it.Next() }` loop sees the error through Get instead of ending as if
+// the list were shorter; Get hands out exactly the stored state; Next never clears a latched error.
+//@ func (i *iterator) Has() (r)
+//@   arith bv
+//@   pure
+//@   requires i != nil
+//@   ensures [error_visible] i.error != nil ==> r
+//@   ensures [value_visible] i.value != nil ==> r
+//@   ensures [finished] i.value == nil && i.error == nil ==> !r
+//@ func (i *iterator) Get() (o, k, err)
+//@   arith bv
+//@   pure
+//@   requires i != nil
+//@   ensures [state] o == i.value && err == i.error && len(k) == len(i.key)
+//@ func (i *iterator) Next() (err)
+//@   arith bv
+//@   nosafety
+//@   modifies *
+//@   noinline keysToBytes
+//@   requires i != nil
+//@   ensures [latched] old(i.error) != nil ==> err != nil && i.error == old(i.error)
+//@   loop 0: invariant true
